@@ -18,7 +18,7 @@ from pbt.core import Collector, HarnessError, mksig
 from pbt.props.c09 import split_tail
 
 ID = "C12"
-RULE = ("matrix of (Term subclass from the live package) x (position: 4 defining, 30 operand slots incl. INSERT VALUES / UPDATE SET / ORDER BY / GROUP BY expressions, 14 operand slots inside select-list items, FROM / JOIN / IN container for selectables) x (six dialect classes) x (get_sql(ctx) / parameterised / str() / as_keyword context); plus GROUP BY / ORDER BY by defined and "
+RULE = ("matrix of (Term subclass from the live package) x (position: 4 defining, 30 operand slots incl. INSERT VALUES / UPDATE SET / ORDER BY / GROUP BY expressions, 14 operand slots inside select-list items, FROM / JOIN / IN container for selectables) x (six dialect classes) x (get_sql(ctx) / parameterised / str() / as_keyword context); one aliased term object used in the select list and again in WHERE / HAVING / ON / ORDER BY / GROUP BY / a second select item; plus GROUP BY / ORDER BY by defined and "
         "undefined alias. Every cell is one case; a cell is non-trivial when the class can be built and can legally stand in the position; distinct = distinct cell. "
         "The matrix is enumerated completely in both tiers.")
 ASSUMPTIONS = [
@@ -431,6 +431,61 @@ VALUES_POSITIONS = ("insert_value", "insert_row_last")
 TARGET_POSITIONS = ("conflict_target",)
 
 
+# ---- third family: ONE aliased term object used in the select list and again in another clause of the same statement ------------------
+
+REUSE_CLAUSES = ["where_operand", "having_operand", "join_on_operand", "orderby_item", "groupby_item", "second_select_operand"]
+
+
+def check_reuse(tcls, cls_name, clause, mode="ctx"):
+    """-> ('skip', why) | ('ok', None) | ('viol', kind, detail).  The alias is written once where it is defined (the select list);
+    GROUP BY / ORDER BY may refer to the item by its alias (one more occurrence, then as the whole item); nowhere else."""
+    import pypika_tortoise as P
+    from pypika_tortoise import functions as fn
+
+    env = prog.Env(cls_name, SRC)
+    if tcls.__name__ in NOT_SELECTABLE_TERMS:
+        return ("skip", "illegal-position")
+    try:
+        x = instance(tcls, env)
+        if x is None:
+            return ("skip", "no-recipe")
+        x = x.as_(ALIAS)
+    except Exception as e:
+        return ("skip", "construct:" + type(e).__name__)
+    Q = prog.query_cls(cls_name)
+    t, u = P.Table("t"), P.Table("u")
+    try:
+        q = Q.from_(t).select(x, t.d)
+        if clause == "where_operand":
+            q = q.where(fn.Coalesce(x, 0) == 1)
+        elif clause == "having_operand":
+            q = q.groupby(t.d).having(fn.Coalesce(x, 0) == 1)
+        elif clause == "join_on_operand":
+            q = Q.from_(t).join(u).on(fn.Coalesce(x, 0) == u.c).select(x, t.d)
+        elif clause == "orderby_item":
+            q = q.orderby(x)
+        elif clause == "groupby_item":
+            q = q.groupby(x)
+        elif clause == "second_select_operand":
+            q = Q.from_(t).select(x, fn.Coalesce(x, 0))
+        sql = render(q, cls_name, mode)
+    except Exception as e:
+        return ("skip", "illegal:" + type(e).__name__)
+    toks = lex.lex(sql, cls_name)
+    n = alias_count(toks)
+    allowed = 1
+    if clause in ("orderby_item", "groupby_item"):
+        words = ("GROUP", "BY") if clause == "groupby_item" else ("ORDER", "BY")
+        segt = clause_tokens(toks, words, ("ORDER", "HAVING", "LIMIT", "OFFSET", "FETCH", "FOR"))
+        if segt is not None and [z.key for z in segt] == [("qid", ALIAS)]:
+            allowed = 2  # a reference to the select item by its alias
+    if n == 0:
+        return ("viol", "dropped", "%s: the alias is missing altogether in %r" % (tcls.__name__, sql))
+    if n > allowed:
+        return ("viol", "leaked", "%s reused at %s: the alias occurs %d times in %r" % (tcls.__name__, clause, n, sql))
+    return ("ok", None)
+
+
 def sig_of(tcls, pos, kind, cls_name="generic"):
     grp = pos if pos in DEFINING + ["from", "join", "groupby", "orderby"] else "operand"
     if kind == "leaked" and pos in TARGET_POSITIONS:
@@ -478,6 +533,9 @@ def find_class(name):
 
 def check_case(case):
     tcls = find_class(case["term"])
+    if case.get("family") == "reuse":
+        r = check_reuse(tcls, case["cls"], case["clause"], case.get("mode", "ctx"))
+        return [(sig_of(tcls, "reuse", r[1], case["cls"]), r[2])] if r[0] == "viol" else []
     if case.get("family") == "gb":
         r = check_groupby(tcls, case["cls"], case["clause"], case["defined"])
         pos = case["clause"]
@@ -533,6 +591,20 @@ def run_shard(shard):
                 col.case(case, True, classes=("gb:%s:%s" % (clause, "defined" if defined else "undefined"),))
                 if r[0] == "viol":
                     col.violation(sig_of(tcls, clause, r[1]), case, r[2])
+    for tcls in term_classes():
+        if tcls.__name__ in NO_ALIAS:
+            continue
+        for clause in REUSE_CLAUSES:
+            for mode in ("ctx", "par"):
+                case = {"family": "reuse", "term": class_key(tcls), "cls": cls_name, "clause": clause, "mode": mode}
+                r = check_reuse(tcls, cls_name, clause, mode)
+                if r[0] == "skip":
+                    col.count("skip:" + r[1])
+                    col.evaluations += 1
+                    continue
+                col.case(case, True, classes=("reuse:" + clause,))
+                if r[0] == "viol":
+                    col.violation(sig_of(tcls, "reuse", r[1], cls_name), case, r[2])
     col.notes["uncovered"] = sorted(uncovered)
     col.notes["term_classes_discovered"] = "%d" % len(term_classes())
     col.exhaustive = True
